@@ -346,6 +346,8 @@ class Body:
                 return ("fn", callee_name(o["fn"]))
             if "static" in o:
                 return ("const", "static " + o["static"], o["ty"])
+            if "lit" in o:
+                return ("const", o["lit"], o["ty"])
             return ("const", o["val"], o["ty"])
         return self.expr_of_place(o["place"], depth)
 
